@@ -153,7 +153,7 @@ FAMILIES["probe"] = {
     "name": "probe", "props": ["C19", "C03", "C13"], "models": "Probe.v",
     "harness": COMMON + ["zz_vf_wire_test.go", "zz_vf_sites_test.go", "zz_vf_probe_test.go"], "test": "TestVfProbe",
     "n": {"quick": 800, "thorough": 150000}, "no_shrink": True,
-    "codes": [(400, 408, ["C19"]), (409, 409, ["C03", "C19"]), (410, 411, ["C13", "C19"])],
+    "codes": [(400, 407, ["C19"]), (408, 408, ["C19", "C13"]), (409, 409, ["C03", "C19"]), (410, 411, ["C13", "C19"])],
     "code_names": {1: "undecodable case",
                    400: "C19: health score left [0, max-1]", 401: "C19: pending-probe record still registered after its deadline",
                    402: "C19: probe verdict differs from 'a matching ack arrived before the deadline (or the TCP fallback round-tripped)'",
